@@ -26,6 +26,13 @@ var rxFrags = []string{"a", "b", "foo", "(?:", ")", "(", "|", "\\(", "\\)", "\\\
 	"(?i:", "(?s:", "(?-s:", "(?i)", "(?s)", "(?m:", "(?U:", "(?-m:", "(?is:", "(?:)", "(?i:x|y)", "(?s:.)", ".", "*", "+", "?", "^", "$", "\\x5c", "\\x{e9}", "\\x0b", "é", "\x01", "\x7f", "\xff", "\xc3", " ", "\t", "\n",
 	"\\s", "\\S", "\\d", "\\b", "{2,3}", "x|y", "\\(?i:x", "(?", "?i:", "@", "~", "'", "-", "\\.", "\\-"}
 
+// texts the optimiser's printer produces around flag groups, kept as a fixed corpus: a group with
+// an alternation at offset 0 followed by more text, groups nested in the outer (?-s: ) group, two
+// groups in a row with a backslash in front, a group in a text without ^ $ .
+var passCorpus = []string{"(?i:a|b)c", "(?s:.c|d)y.", "(?-s:(?s:.c|d)y.)", "(?i:ab)cd", "(?s)foo(?i:BAR)", "pre(?i:SELECT|UNION)",
+	"ab\\.c(?i:d)ef(?s:.)", "(?s)ab\\.c(?i:d)ef(?s:.)", "x(?i:a)(?s:.)\\(?m:y", "(?i:a)(?s:.)b\\.(?m:^)c", "(?m:^)a|(?s:.)b", "(?-s:.)(?s:.)x\\(?i:y(?i:z)",
+	"\\\\(?i:a)\\(?s:.)", "(?i:(?s:.)a|b)c(?m:$)", "a(?i:b)c\\\\d(?s:.)e"}
+
 func genRxText(r *Rng) string {
 	n := r.Range(0, 9)
 	var sb strings.Builder
@@ -101,9 +108,11 @@ func suitePasses(env *Env, res *Result) {
 		f := append([]string{"pass", name, hx(in)}, extra...)
 		cases = append(cases, CorrCase{Fields: f, Impl: impl, Human: name + " " + strconv.Quote(in) + " " + strings.Join(extra, " "), Class: class})
 	}
-	for i := 0; i < n; i++ {
+	for i := 0; i < n+len(passCorpus); i++ {
 		var t string
-		if r.Chance(1, 4) {
+		if i < len(passCorpus) {
+			t = passCorpus[i]
+		} else if r.Chance(1, 4) {
 			t = genRxPrinted(r)
 		} else {
 			t = genRxText(r)
@@ -153,7 +162,87 @@ func suitePasses(env *Env, res *Result) {
 			add("remove_group", t, callPass("remove_group", func() string { return operators.VerifRemoveGroup(t, gs, bs, ign) }), strconv.Itoa(gs), strconv.Itoa(bs), strconv.FormatBool(ign))
 		}
 	}
-	compareWithModel(env, res, cases)
+	outs := compareWithModel(env, res, cases)
+	judgePassMismatches(env, res, cases, outs)
+}
+
+// A pass on which the code and the model disagree is judged on the property itself: the model is
+// the faithful transcription of the unchanged code, so its output is what the code used to
+// produce.  If the code's output now means something else (C01: decided by the verified checker,
+// confirmed on Go's engine), or breaks the shape the rule line needs while the model's output has
+// it (C02), that input is a failing input; a harmless rewrite produces neither.
+func judgePassMismatches(env *Env, res *Result, cases []CorrCase, outs []string) {
+	if outs == nil {
+		return
+	}
+	type jc struct {
+		name, in, impl, model string
+	}
+	var todo []jc
+	for i, c := range cases {
+		if len(todo) >= 60 {
+			break
+		}
+		if outs[i] == c.Impl || len(c.Fields) < 3 || c.Fields[0] != "pass" {
+			continue
+		}
+		switch c.Fields[1] {
+		case "escape_dq", "hex_bs", "include_vt", "hex_escapes", "dont_use_flags", "remove_outermost", "final_passes":
+		default:
+			continue
+		}
+		if !strings.HasPrefix(c.Impl, "OK\t") || !strings.HasPrefix(outs[i], "OK\t") {
+			continue
+		}
+		todo = append(todo, jc{c.Fields[1], unhx(c.Fields[2]), unhx(strings.TrimPrefix(c.Impl, "OK\t")), unhx(strings.TrimPrefix(outs[i], "OK\t"))})
+	}
+	var eq [][]string
+	var eqIdx []int
+	for k, t := range todo {
+		input := map[string]interface{}{"pass": t.name, "text": t.in, "code_output": t.impl, "model_output_of_the_unchanged_code": t.model}
+		// C02: the shape of the text that is pasted into the rule line
+		if t.name == "final_passes" || t.name == "dont_use_flags" {
+			good := map[string]bool{}
+			for _, f := range checkOutputShape(t.model, "") {
+				good[f] = true
+			}
+			for _, f := range checkOutputShape(t.impl, "") {
+				if !good[f] {
+					res.addFailure(Failure{Kind: "C02", Shape: f, Input: input, Detail: "the pass now leaves " + strconv.Quote(clip(t.impl, 200)) + " where it used to give " + strconv.Quote(clip(t.model, 200))})
+				}
+			}
+		}
+		r1, e1 := textToRX(t.impl, false, false)
+		r2, e2 := textToRX(t.model, false, false)
+		if e1 != nil || e2 != nil {
+			continue
+		}
+		eq = append(eq, []string{"equiv", "11", eqFuel(env), r1, r2})
+		eqIdx = append(eqIdx, k)
+	}
+	if len(eq) == 0 {
+		return
+	}
+	vs, err := runDriverParallel(env, eq, 8)
+	if err != nil {
+		return
+	}
+	for j, v := range vs {
+		t := todo[eqIdx[j]]
+		if !strings.HasPrefix(v, "DIFFERS") {
+			continue
+		}
+		w, _ := wordOfVerdict(v)
+		for _, ctx := range [][2]bool{{true, true}, {true, false}, {false, true}, {false, false}} {
+			a, e1 := matchExact(t.impl, w, ctx[0], ctx[1])
+			b, e2 := matchExact(t.model, w, ctx[0], ctx[1])
+			if e1 == nil && e2 == nil && a != b {
+				res.addFailure(Failure{Kind: "C01", Shape: "c01_pass_changes_language", Input: map[string]interface{}{"pass": t.name, "text": t.in, "code_output": t.impl, "model_output_of_the_unchanged_code": t.model, "witness": w},
+					Detail: fmt.Sprintf("subject %q (at start %v, at end %v): the code's output matches %v, the unchanged code's output matches %v", w, ctx[0], ctx[1], a, b)})
+				break
+			}
+		}
+	}
 }
 
 var cmdWords = []string{"ls", "cat", "nc.traditional", "apt-get", "python3", "time", "a b", "w@", "w~", "w\\@", "w\\~", "w\\\\@", "@", "~", "\\@", "'lit.eral", "'", "x", "", "g++", "7z", "c99", "a  b", "é", "-", ".", "a\\", "a@b", "ab@@", "foo\\", "\\", "'x@"}
@@ -357,7 +446,7 @@ func suiteExpandDefs(env *Env, res *Result) {
 	}
 }
 
-var suffixKeys = []string{"@", "~", "a", "b", "c", "xa", "ing", "s", "\"\"", "é", "ab", "\\b", "ub"}
+var suffixKeys = []string{"@", "~", "a", "b", "c", "xa", "ing", "s", "\"\"", "é", "ab", "\\b", "ub", ">", "<", "e"}
 
 func genPairMap(r *Rng) (map[string]string, []string) {
 	n := r.Range(1, 4)
@@ -386,7 +475,7 @@ func suiteReplaceSuffixes(env *Env, res *Result) {
 		for j := 0; j < lines; j++ {
 			switch r.Intn(8) {
 			case 0:
-				sb.WriteString(r.Pick([]string{"##! comment a", "##!> assemble", "##!<", "", " ", "\t", "  # a"}))
+				sb.WriteString(r.Pick([]string{"##! comment a", "##!> assemble", "##!<", "", " ", "\t", "  # a", "##!=>", "##!=< x", "##!=> x", "##!^ pre", "##!$ post>"}))
 			default:
 				e := r.Pick([]string{"x", "foo", "cmd", "w", "ya", "zb", "time", "ls", "user@", "grub", "xa"}) + r.Pick(append([]string{"", ""}, suffixKeys...))
 				if r.Chance(1, 6) {
